@@ -24,7 +24,7 @@ CONSTANTS
   MaxDepthVar = 3
   VarTuples = {"t0", "tA", "tB", "tC", "tD"}
   MaxDepthScopes = 3
-  MaxDepthStrike = 3
+  MaxDepthStrike = 2
   MaxDepthPairs = 3
 SPECIFICATION Spec
 VIEW View
